@@ -3,6 +3,9 @@ NOTES = ('Model-based verification with explicit TLA+ specifications (specs/), c
          'specification behaviours into the real objects (harness/, Binding A) and validating recorded executions against trace '
          'specifications (Binding B). See DESIGN.md.')
 ENGINES = [
+    {'name': 'servo-traces', 'path': 'specs/Servo.tla, specs/TraceServo.tla, specs/TraceLoop.tla + harness/src/bin/{servo,servoloop}.rs',
+     'serves_properties': ['C02', 'C13'],
+     'kind_free_text': 'executions of the real servo (adversarial open-loop sequences; closed loop against a simulated master and oscillator) are recorded as ndjson traces and validated by TLC against trace specifications'},
     {'name': 'exporter-rig', 'path': 'specs/Exporter.tla, specs/Metrics.tla + lib/expdrv.py + harness/src/bin/{exporter,obsdump}.rs',
      'serves_properties': ['C19', 'C20'],
      'kind_free_text': 'TLC enumerates connection-behaviour sequences / instance states with expected metrics; a Python rig runs the real exporter process between a scripted TCP client and a scripted observation socket'},
@@ -167,5 +170,22 @@ CLAIMED['C20'] = {
              'every sequence up to length 2 (quick) / 3 (thorough) plus sampled sequences of length 3-4 with the expected observation per connection. Each sequence runs against a fresh '
              'real exporter process; afterwards a well-formed request must be answered 200 within 2 s, with the process alive and not burning CPU.'),
     'note': 'the accept-loop defects found are repaired by fix: 9f182a5',
+}
+
+CLAIMED['C13'] = {
+    'engine': 'servo-traces', 'level': 'exploration', 'design_ref': 'DESIGN.md section 4, C13',
+    'technique': 'trace validation: every clock command of the real KalmanFilter / BasicFilter under adversarial measurement sequences is an event of an ndjson trace that TLC checks against Servo.tla (life cycle + command guards)',
+    'text': ('Servo.tla states the life cycle (Idle, Controlling, Demobilized: at most one final frequency command) and the guards (finite; |frequency| <= max_freq_offset; '
+             '|step| >= step_threshold). A driver feeds eight families of adversarial measurement sequences and a range of configurations into the real filters with an exact mock '
+             'clock that can fail; TLC validates each recorded trace (about 170 000 events quick) and must reject a trace with one out-of-bound command (negative control).'),
+    'note': 'sampled sequences, exhaustive over nothing; two NaN defects found this way are repaired by fix: commits; the port-level demobilise rule is checked by C08',
+}
+CLAIMED['C02'] = {
+    'engine': 'servo-traces', 'level': 'exploration', 'design_ref': 'DESIGN.md section 4, C02',
+    'technique': 'trace validation of closed-loop runs: real slave Port + real Kalman servo against a simulated master, path and oscillator in virtual time; TLC checks each recorded run against TraceLoop.tla (Locked => offset <= Bound(jitter), no step after Tconv, command guards)',
+    'text': ('A real port with the real KalmanFilter is driven by Announce / Sync / Follow_Up / Delay_Resp frames of a simulated master over a symmetric path with bounded jitter; its own '
+             'set_frequency / step_clock act on a simulated oscillator, so the loop is closed; the host obeys the timer actions. Each run logs the true offset at every Sync arrival and every '
+             'clock command; TLC accepts the trace iff after Tconv = max(1200 s, 600 intervals) the offset stays below 0.5 us + 3 x jitter and the clock is never stepped.'),
+    'note': 'bounds are empirical (calibrated on 12 150 runs of the unchanged tree, margin >= 3); the grid is sampled in the quick tier and complete (2430 cells) in the thorough tier',
 }
 NOT_CLAIMED = {}
